@@ -208,3 +208,22 @@ def _forget_mutated(stmt, env):
                 for s in ast.walk(t):
                     if isinstance(s, ast.Name):
                         _forget_name(s.id, env)
+
+
+LOGGER_METHODS = ('debug', 'info', 'warning', 'warn', 'error', 'exception', 'critical', 'log', 'isEnabledFor')
+
+
+def is_logger_call(model, m, call):
+    """``x.debug(...)`` etc. where x is a module-level name (or a dotted module attribute) bound to ``logging.getLogger(...)``:
+    the standard library's logging calls never raise to the caller (formatting and handler errors are caught inside logging and at
+    most printed) and change no program state."""
+    f = call.func
+    if not (isinstance(f, ast.Attribute) and f.attr in LOGGER_METHODS and isinstance(f.value, (ast.Name, ast.Attribute))):
+        return False
+    try:
+        r = model.resolve_attr_chain(m, f.value)
+    except Exception:
+        r = None
+    if r and r[0] == 'const' and isinstance(r[3], ast.Call) and (call_name(r[3]) or '').split('.')[-1] == 'getLogger':
+        return True
+    return False
